@@ -487,8 +487,10 @@ Definition task_reschedule (s : st) (t : nat) : st :=
 Fixpoint propagate_task (fuel : nat) (s : st) (t : nat) : st :=
   (* t is a PriorityTask *)
   if negb (is_prio_task s t) then s else
-  if task_is_runnable s t then task_reschedule s t
-  else match twaiting (gett s t), fuel with
+  (* a runnable task is rescheduled; if it is ALSO still queued on a lock (a cancelled, interrupted or
+     woken waiter that has not run its finally yet) the notification is passed on as well (repair F17) *)
+  let s := if task_is_runnable s t then task_reschedule s t else s in
+  match twaiting (gett s t), fuel with
        | Some l, S fuel =>
            (* PriorityLock.propagate_priority(from_obj = t) *)
            let lk := getl s l in
